@@ -341,6 +341,23 @@ func GraphOrdering(w *load.World, c *core.Collector) {
 					if _, fresh := ssax.Path(call.Call.Args[0]); fresh {
 						continue // constructor
 					}
+					// a helper that only the constructor calls, on the object it is building
+					if len(f.Params) > 0 && f.Signature.Recv() != nil {
+						sites := staticCallSites(w, f)
+						onlyFresh := len(sites) > 0
+						for _, site := range sites {
+							if len(site.Common().Args) == 0 {
+								onlyFresh = false
+								continue
+							}
+							if _, fr := ssax.Path(site.Common().Args[0]); !fr {
+								onlyFresh = false
+							}
+						}
+						if fa, ok := call.Call.Args[0].(*ssa.FieldAddr); ok && peelToParam(fa.X) == ssa.Value(f.Params[0]) && onlyFresh {
+							continue
+						}
+					}
 					nMax++
 					val := call.Call.Args[1]
 					okMono := false
